@@ -249,6 +249,9 @@ func (c *Checker) Feed(ev Event) {
 			c.modify(p)
 		}
 	case "fsync", "fdatasync":
+		if !ok {
+			c.Counts["fsyncs_failed(not a flush)"]++
+		}
 		if !ok || len(a) == 0 {
 			return
 		}
